@@ -310,3 +310,52 @@ func init() {
 		},
 	})
 }
+
+func init() {
+	register(&Rule{
+		ID: "entry.exit-reaches-chain", Props: []string{"C16", "C01"}, Floor: 1,
+		Doc: "inside the Once closure of SentinelEntry.Exit every non-panicking path on which the entry has a slot chain reaches the chain's exit (which reports completion to the statistic slots): nothing the exit handlers return makes Exit skip it, so a passed entry is told complete exactly once",
+		Run: func(c *Ctx) {
+			exit := c.P.Func("core/base.(*SentinelEntry).Exit")
+			scExit := c.P.Func("core/base.(*SlotChain).exit")
+			if exit == nil || scExit == nil {
+				c.AnchorLost("SentinelEntry.Exit / SlotChain.exit")
+				return
+			}
+			n := 0
+			for _, g := range withNewHelpers(withAnon(exit)) {
+				calls := false
+				for _, ci := range callsIn(g) {
+					if isStaticCallTo(ci, scExit) {
+						calls = true
+					}
+				}
+				if !calls || len(g.Blocks) == 0 || len(g.Blocks[0].Instrs) == 0 {
+					continue
+				}
+				n++
+				// the chain field of the entry, as this function names it
+				scPath := ""
+				for _, ci := range callsIn(g) {
+					if isStaticCallTo(ci, scExit) {
+						scPath = accessPath(ci.Common().Args[0])
+					}
+				}
+				first := g.Blocks[0].Instrs[0]
+				hit := func(ins ssa.Instruction) bool {
+					ci, ok := ins.(ssa.CallInstruction)
+					return ok && isStaticCallTo(ci, scExit)
+				}
+				ok, at := mustPassAssuming(first, nilTestDecider(scPath, false), func(ins ssa.Instruction) bool { return ins == first && hit(ins) || hit(ins) })
+				where := ""
+				if at != nil {
+					where = c.P.Pos(at.Pos())
+				}
+				c.Check(ok, fnKey(g)+" / chain-exit-on-every-path", g.Pos(), "every return of the function that completes the entry is preceded by %s.exit(ctx) when the chain is set (offending return: %s): a handler result or any other condition must not skip the completion callbacks", scPath, where)
+			}
+			if n == 0 {
+				c.Violate(fnKey(exit)+" / chain-exit", exit.Pos(), "SentinelEntry.Exit never calls the slot chain's exit: passed entries are never completed")
+			}
+		},
+	})
+}
